@@ -207,6 +207,16 @@ Fixpoint trace (c : cls) (st : pairmap) (ops : list op) : list sx :=
   | o :: t => let r := step c st o in observe c (fst r) (snd r) :: trace c (fst r) t
   end.
 
+(* two live objects of one class built by the same constructor call (from the SAME argument objects): an operation on one
+   must leave the other exactly as it was; every step reports both *)
+Fixpoint trace2 (c : cls) (sp sq : pairmap) (ops : list (bool * op)) : list sx :=
+  match ops with
+  | [] => []
+  | (q, o) :: t =>
+      if q then let r := step c sq o in L [observe c sp false; observe c (fst r) (snd r)] :: trace2 c sp (fst r) t
+      else let r := step c sp o in L [observe c (fst r) (snd r); observe c sq false] :: trace2 c (fst r) sq t
+  end.
+
 (* table dump of everything generated, for the cell-by-cell comparison with the real functions *)
 Definition code (s : pstate) : nat :=
   (if dir_uv s then 1 else 0) + (if dir_vu s then 2 else 0) + (if cir_uv s then 4 else 0) +
@@ -228,9 +238,14 @@ Definition tables : sx :=
      L (map (fun c => L (map (fun s => L [I (code s); of_bool (mec_pair c s)]) all_pstates))
             [CPag; CCpdag; CAugPag; CTsPag; CTsCpdag])].
 
-(* run_case:  L [I 0; I cls; L ops] -> per-step observations ;  L [I 1] -> the generated tables *)
+(* run_case:  L [I 0; I cls; L ops] -> per-step observations ;  L [I 1] -> the generated tables ;
+              L [I 2; I cls; ctor; L [L [I target; op] ...]] -> two objects from one constructor call, both observed per step *)
 Definition run_case (s : sx) : sx :=
   match sx_nat (sx_nth s 0) with
   | 0 => L (trace (cls_of_nat (sx_nat (sx_nth s 1))) [] (map op_of_sx (sx_list (sx_nth s 2))))
-  | _ => tables
+  | 1 => tables
+  | _ => let c := cls_of_nat (sx_nat (sx_nth s 1)) in
+         let r := step c [] (op_of_sx (sx_nth s 2)) in
+         L (L [observe c (fst r) (snd r); observe c (fst r) (snd r)] ::
+            trace2 c (fst r) (fst r) (map (fun x => (sx_bool (sx_nth x 0), op_of_sx (sx_nth x 1))) (sx_list (sx_nth s 3))))
   end.
